@@ -661,6 +661,19 @@ class TapeReaderFns:
                 return
             env.ensure(KEY + "read_word::post:value", p + 2 <= len(buf) and F.intval(r) == buf[p] * 256 + buf[p + 1], ("C06",),
                        lambda: "value")
+        elif cell["fn"] == "name":
+            n, pnt = min(h.get("n", 64), 5000), h.get("p", 3)
+            pnt = min(pnt, max(0, n - 8))
+            img = [32 + (7 * i + 5) % 95 for i in range(n)]
+            c = F.new(CAS, "CassetteFile", buffer=list(img))
+            key = KEY + "read_coco_file_name"
+            try:
+                r = F.method(c, "read_coco_file_name", pnt)
+            except Raised as e:
+                env.fail(key + "::raises:none-for-ascii", ("C06", "C13"), lambda: "read_coco_file_name:raised:%s" % e.cls)
+                return
+            env.ensure(key + "::post:pointer", r[1] == pnt + 8, ("C06",), lambda: "read_coco_file_name:pointer=%s" % (r[1],))
+            env.ensure(key + "::post:name-bytes", [ord(ch) for ch in str(r[0])] == img[pnt:pnt + 8], ("C06",), lambda: "read_coco_file_name:bytes")
         else:
             env.ensure(KEY + "native-replay-not-implemented", True, ())
 
